@@ -19,7 +19,7 @@ RULE = (
     "run = (reader, pattern, chunk size): HDLC patterns {all flags, flag + short junk, flag + lone escape, valid frames back to back (two flags / one shared flag), never-ending frame, "
     "frame longer than its length field followed by endless flags, random bytes} under three configurations; P1 patterns {well-formed readouts of 40 KiB, 60 KiB, 90 KiB, ... (each 1.5 x the previous) followed by a never-ending readout, '/' ident lines without '!', '/' + bytes without LF, '////..' and '/abc/abc..' without LF, "
     "ident line + endless data lines, ident line + endless bytes without LF, ever-changing '/' lines, valid readouts back to back, random ASCII, random bytes, text without '/' and LF}; chunk sizes {1 (first 128 KiB), 64, 4096, 65536} and delimiter-aligned calls (ending right after every LF / 7th LF for P1, every flag / 7th flag for HDLC); stream length 1 MiB (quick) / 16 MiB (thorough). "
-    f"oracle: deep size after read() <= {HDLC_CONST} (HDLC) / {P1_CONST} (P1) + 3 x chunk bytes at every sample, and max over the second half <= max(1.25 x max over the first half + chunk + 1 KiB, a quarter of the constant + chunk) (jittered sampling and a floor, so that a bounded saw-tooth or a few spiky long messages are not mistaken for growth). "
+    f"oracle: deep size after read() <= {HDLC_CONST} (HDLC) / {P1_CONST} (P1) + 3 x chunk bytes at every sample, and max over the second half <= max(1.25 x max over the first half + chunk + 1 KiB, 0.4 x the constant + chunk) (jittered sampling and a floor, so that a bounded saw-tooth or a few spiky long messages are not mistaken for growth). "
     "evaluations = read() calls made; distinct non-trivial = distinct (reader, configuration, pattern, chunk size) runs with >= 16 size samples."
 )
 ASSUMPTIONS = [
@@ -29,9 +29,9 @@ ASSUMPTIONS = [
 WATCHDOG_S = {"quick": 900, "thorough": 7200}
 
 HDLC_PATTERNS = ("all_flags", "flag_short_junk", "flag_lone_escape", "valid_frames", "never_ending_frame", "random_bytes", "overlong_frame_then_flags",
-                 "single_flag_between_frames", "escaped_pairs_forever", "escape_fill_forever", "valid_frames_with_segmentation_bit", "tiny_length_header_then_frames")
+                 "single_flag_between_frames", "escaped_pairs_forever", "escape_fill_forever", "valid_frames_with_segmentation_bit", "tiny_length_header_then_frames", "valid_frames_from_ever_changing_stations")
 P1_PATTERNS = ("ident_lines_without_end", "slash_without_lf", "ident_then_endless_data", "valid_readouts", "random_ascii", "random_bytes", "text_without_slash_and_lf",
-               "slashes_without_lf", "slash_words_without_lf", "ident_then_no_lf", "varying_slash_lines", "growing_valid_readouts_then_endless_data")
+               "slashes_without_lf", "slash_words_without_lf", "ident_then_no_lf", "varying_slash_lines", "growing_valid_readouts_then_endless_data", "ident_then_blank_lines", "ident_then_blank_and_data_lines")
 CHUNKS = (1, 64, 4096, 65536, "delim1", "delim7")  # delimN: a call ends right after every N-th LF (P1) / flag (HDLC)
 
 
@@ -84,6 +84,19 @@ def make_stream(rng, reader: str, cfg, pattern: str, total: int) -> bytes:
             frames = [_h.build(0xA, True, _h.address(rng, 1), _h.address(rng, 1), rng.randrange(256), ids.next() + rng.randbytes(rng.randint(1, 60))) for _ in range(300)]
             unit = b"\x7e" + b"\x7e".join(hdlc_gen.on_wire(f, cfg[0]) for f in frames) + b"\x7e"
             return (unit * (total // len(unit) + 1))[:total]
+        if pattern == "valid_frames_from_ever_changing_stations":
+            # intact frames of every kind (information, supervisory, unnumbered: any control octet) whose addresses never repeat
+            from vf.ref import hdlc_ref as _h
+
+            out = bytearray(b"\x7e")
+            k = 0
+            while len(out) < total:
+                k += 1
+                src = bytes((((k >> 21) & 0x7F) << 1, ((k >> 14) & 0x7F) << 1, ((k >> 7) & 0x7F) << 1, ((k & 0x7F) << 1) | 1))
+                dst = _h.address(rng, rng.choice((1, 2, 4)))
+                fr = _h.build(0xA, False, dst, src, (k * 2) & 0xFE if k % 3 else rng.randrange(256), bytes(rng.randrange(256) for _ in range(rng.randint(1, 12))))
+                out += hdlc_gen.on_wire(fr, cfg[0]) + b"\x7e"
+            return bytes(out[:total])
         if pattern == "single_flag_between_frames":
             ids = hdlc_gen.IdSource(rng)
             unit = b"".join(b"\x7e" + hdlc_gen.on_wire(hdlc_gen.good_frame(rng, ids, max_info=120, want_info=True)[0], cfg[0]) for _ in range(300))
@@ -135,6 +148,13 @@ def make_stream(rng, reader: str, cfg, pattern: str, total: int) -> bytes:
         unit = b"".join(p1_gen.data_line(rng) + b"\r\n" for _ in range(400))
         out += p1_ref.strict_ident(rng)[0] + b"\r\n" + unit * ((total - len(out)) // len(unit) + 1)
         return bytes(out[:total])
+    if pattern in ("ident_then_blank_lines", "ident_then_blank_and_data_lines"):
+        eol = rng.choice((b"\r\n", b"\n"))
+        if pattern == "ident_then_blank_lines":
+            unit = eol * 4096
+        else:
+            unit = b"".join((eol * rng.randint(1, 40)) + p1_gen.data_line(rng) + eol for _ in range(200))
+        return (p1_ref.strict_ident(rng)[0] + eol + unit * (total // len(unit) + 1))[:total]
     if pattern == "ident_then_endless_data":
         unit = b"".join(p1_gen.data_line(rng) + b"\r\n" for _ in range(400))
         return (p1_ref.strict_ident(rng)[0] + b"\r\n" + unit * (total // len(unit) + 1))[:total]
@@ -211,7 +231,9 @@ def one_run(spec: dict, ctx) -> None:
         )
     half = len(samples) // 2
     first, second = max(s for _, s in samples[:half] or samples), max(s for _, s in samples[half:])
-    if second > max(first * 1.25 + chunk + 1024, const / 4 + chunk):
+    # (the floor is what one desynchronised maximum-length message may legitimately occupy: frame + raw copy of 2047 octets for HDLC,
+    # line buffer + collected readout of 8191 bytes for P1 - both about 0.4 x the constant)
+    if second > max(first * 1.25 + chunk + 1024, const * 0.4 + chunk):
         ctx.violation(
             f"C19:growing:{label}",
             f"max deep size over the first half {first} bytes, over the second half {second} bytes (chunk {chunk}) - retained memory grows with the amount of data fed",
